@@ -174,3 +174,7 @@ PROPS['C14'] = dict(level='model_checking',
   harnesses=[SEQ('fd_first_%d' % c, 'C14_fd.cpp', 'h_fd', opts=dict(params=[c], max_visits=100), desc='safe_file_descriptor: first operation %d, then three symbolic operations out of 8' % c) for c in range(8)] +
             [SEQ('mmap_seq', 'C14_fd.cpp', 'h_mmap', opts=dict(params=[0], max_visits=100), desc='mmap_region: three symbolic operations out of 4')])
 PROPS['C11']['harnesses'] += [SEQ('via_throw_k%d' % k, 'C11_viathrow.cpp', 'h_via_throw', exc=True, opts=dict(params=[k]), desc='via over a source completing on a foreign context with a value whose copy #%d throws' % k) for k in (0, 1, 2, 99)]
+# cross-registration: harnesses whose assertions also decide clauses of other properties
+PROPS['C04']['harnesses'] += [h for h in PROPS['C01']['harnesses'] if h['name'] in ('wa_race_min', 'sw_race_min')]
+PROPS['C05']['harnesses'] += [h for h in PROPS['C04']['harnesses'] if h['name'] == 'wa_inline_cancel'] + \
+                             [h for h in PROPS['C02']['harnesses'] if h['name'].startswith(('fault_finally_k', 'fault_finally_done_k'))]
